@@ -26,6 +26,10 @@ CLAIMED = {
    text="Coq theorems over an executable model of IPv4Address, HWAddress<n>/IPv6Address (byte buffers), AddressRange and its iterator: printed text parses back to the same address (HW for every n>=1; IPv4 against a model of glibc's inet_pton), byte-wise ordering/equality equal numeric order of the big-endian value, contains() is exactly first<=x<=last, and — proved once for any address type with a valuation into [0,M) and instantiated for IPv4 (M=2^32) and n-byte buffers (M=256^n) — iterating a range visits each address (each host address for prefix ranges) exactly once in increasing order and terminates for EVERY range size, including ranges ending at the all-ones address and the whole IPv4 space. The model is tied to the code by running extracted model and real classes on the same scripts; an independent Python reference judges the C++ directly.",
    note="Trusted: Coq kernel, extraction, harness/h_addr.cpp, glibc inet_pton(AF_INET) as modelled (validated by correspondence), glibc IPv6 text functions external (round trip checked differentially only). One defect repaired (fix: IPv4 whole-space iteration); the HW text parser's accept set is a recorded known finding (C16_hw_accept_refuted).",
    tech="Coq proof (abstract iterator theorem by induction on distance, codec round trips) + model/code correspondence + reference oracle", ref="3/C16"),
+ 'C11': dict(
+   text="A faithful executable Coq model of RadioTapParser / RadioTapWriter (write_option, build_padding_vector, update_paddings) and the RadioTap setters/getters over the options buffer, using the padding kernel and the metadata table REGENERATED from the source on every run; proved: the generated calculate_padding is the least aligning padding for every alignment/offset, the generated table has power-of-two alignments and positive sizes, reader alignment and writer padding agree. The extracted model and the real class run the same setter scripts (all orders of all subsets of <=3/4 of the 14 setters exhaustively, random sequences from default and parsed headers, wild raw options); a canonical-layout last-write reference judges the C++ directly incl. serialize + parse-back.",
+   note="Trusted: Coq kernel, translators (cxx2gallina, gen_tables) + clang AST, extraction, harness/h_rt.cpp. The end-to-end theorem 'any setter sequence yields the canonical layout of the last-write map' is stated in DESIGN.md and currently decided by the exhaustive/random differential runs, not yet by a Coq refinement proof. Headers with extended present words are outside the model. Three defects repaired (fix: update_paddings offset, signal_quality width/field, out-of-bounds write on truncated parsed headers).",
+   tech="Coq proof (generated kernel/table obligations) + faithful writer model in correspondence + canonical-layout oracle", ref="3/C11"),
 }
 ALL = ['C%02d' % i for i in range(1, 20)]
 NA_REASON = "check not built yet in this session (machinery is being extended property by property; see DESIGN.md section 7)"
